@@ -8,7 +8,7 @@ use serde_json::{json, Value};
 
 pub const RULE: &str = "histories of up to 60 (quick) / 300 (thorough) transactions on an unreliable-transport client with generated initial RTO \
 (1 ms-3 s) and granularity (1 us-100 ms): each transaction is sent after a gap (short, or around the 600 s boundary to the nanosecond), \
-retransmitted 0-3 times or not at all, answered after 1 ms-40 s or lost (left to time out), sometimes overlapping the next one; after every \
+retransmitted 0-3 times or not at all (Rc 7 / Rm 16, or generated Rc 1-14 and Rm 1-32), answered after 1 ms-40 s or lost (left to time out), sometimes overlapping the next one; after every \
 send the RTO chosen for the new request (hook, and independently the duration of the first notification when nothing else is outstanding) \
 is compared with a double-precision RFC 6298 reference (alpha 1/8, beta 1/4, K 4, RTTVAR before SRTT, Karn's rule, reset after more than \
 600 s between requests) within 1e-5 relative + 1 us; zero response times are excluded by construction; non-trivial = at least 3 samples \
@@ -28,6 +28,9 @@ pub struct RttCase {
     pub rto_us: u64,
     pub gran_us: u64,
     pub txns: Vec<Txn>,
+    /// (Rc, Rm); None = the defaults 7 and 16.  Large values let a lost request stay outstanding for minutes.
+    #[serde(default)]
+    pub rc_rm: Option<(u32, u32)>,
 }
 
 struct RefRtt {
@@ -63,8 +66,8 @@ pub fn check_rtt(c: &RttCase, st: &mut Stats) -> Result<(), String> {
     let cfg = ClientCfg {
         rto_us: c.rto_us,
         gran_us: c.gran_us,
-        rc: 7,
-        rm: 16,
+        rc: c.rc_rm.map(|x| x.0).unwrap_or(7),
+        rm: c.rc_rm.map(|x| x.1).unwrap_or(16),
         max_tx: 1000,
         ..ClientCfg::default_unreliable()
     };
@@ -122,8 +125,13 @@ pub fn check_rtt(c: &RttCase, st: &mut Stats) -> Result<(), String> {
         if sim.awaiting().len() == 1 {
             if let Some(a) = sim.armed {
                 let d = (a - sim.now) as f64 / 1e9;
-                if (d - model.rto).abs() > tol {
-                    return Err(format!("transaction {}: first notification announces {:.9} s, reference RTO is {:.9} s", n, d, model.rto));
+                // with Rc = 1 the only wait is the final one, Rm x RTO
+                let factor = if cfg.rc == 1 { cfg.rm as f64 } else { 1.0 };
+                if (d - model.rto * factor).abs() > tol * factor {
+                    return Err(format!(
+                        "transaction {}: first notification announces {:.9} s, reference RTO is {:.9} s (x{} for the first wait)",
+                        n, d, model.rto, factor
+                    ));
                 }
             }
         }
@@ -186,8 +194,9 @@ pub fn arb_case(max: usize) -> BoxedStrategy<RttCase> {
     (
         prop_oneof![2 => Just(500_000u64), 2 => 1_000u64..=3_000_000, 1 => (1u64..=1000).prop_map(|k| k * 3_000)],
         prop_oneof![2 => Just(1_000u64), 1 => 1u64..=100_000],
+        prop_oneof![3 => Just(None), 1 => (1u32..=14, 1u32..=32).prop_map(Some)],
     )
-        .prop_flat_map(move |(rto_us, gran_us)| {
+        .prop_flat_map(move |(rto_us, gran_us, rc_rm)| {
             let gap = prop_oneof![
                 6 => (1u64..=2_000).prop_map(|ms| ms * 1_000_000),
                 1 => Just(600_000_000_000u64),
@@ -213,7 +222,7 @@ pub fn arb_case(max: usize) -> BoxedStrategy<RttCase> {
             ];
             let txn = (gap, prop_oneof![4 => Just(0u8), 1 => 1u8..=3], delay, prop_oneof![19 => Just(false), 1 => Just(true)], prop_oneof![5 => Just(false), 1 => Just(true)])
                 .prop_map(|(gap, retrans, delay, lost, overlap)| Txn { gap, retrans, delay, lost, overlap });
-            proptest::collection::vec(txn, 1..=max).prop_map(move |txns| RttCase { rto_us, gran_us, txns })
+            proptest::collection::vec(txn, 1..=max).prop_map(move |txns| RttCase { rto_us, gran_us, txns, rc_rm })
         })
         .boxed()
 }
